@@ -51,7 +51,7 @@ type ggFn struct {
 	envArg  bool
 }
 
-type gg struct {
+type geg struct {
 	structs map[string]*ggStruct // kind -> fields
 	fns     map[string]*ggFn     // Go name (or Recv.Name) -> translated function
 	env     []map[string]string
@@ -62,24 +62,24 @@ type gg struct {
 	usesEnv bool
 }
 
-func ggFail(n ast.Node, format string, a ...any) {
+func gegFail(n ast.Node, format string, a ...any) {
 	fail("gerrorgen: %s: %s", at(n), fmt.Sprintf(format, a...))
 }
 
 var ggKeywords = map[string]bool{"include": true, "omit": true, "result": false}
 
-func ggName(n string) string {
+func gegName(n string) string {
 	if ggKeywords[n] {
 		return "«" + n + "»"
 	}
 	return name(n)
 }
 
-func (t *gg) line(ind int, s string) { t.out.WriteString(strings.Repeat("  ", ind) + s + "\n") }
-func (t *gg) push()                  { t.env = append(t.env, map[string]string{}) }
-func (t *gg) pop()                   { t.env = t.env[:len(t.env)-1] }
-func (t *gg) bind(n, k string)       { t.env[len(t.env)-1][n] = k }
-func (t *gg) lookup(n string) string {
+func (t *geg) line(ind int, s string) { t.out.WriteString(strings.Repeat("  ", ind) + s + "\n") }
+func (t *geg) push()                  { t.env = append(t.env, map[string]string{}) }
+func (t *geg) pop()                   { t.env = t.env[:len(t.env)-1] }
+func (t *geg) bind(n, k string)       { t.env[len(t.env)-1][n] = k }
+func (t *geg) lookup(n string) string {
 	for i := len(t.env) - 1; i >= 0; i-- {
 		if k, ok := t.env[i][n]; ok {
 			return k
@@ -87,7 +87,7 @@ func (t *gg) lookup(n string) string {
 	}
 	return ""
 }
-func (t *gg) inScope(n string) bool { _, ok := t.env[len(t.env)-1][n]; return ok }
+func (t *geg) inScope(n string) bool { _, ok := t.env[len(t.env)-1][n]; return ok }
 
 func ggLeanType(k string) string {
 	switch k {
@@ -140,7 +140,7 @@ func ggLeanType(k string) string {
 func ggStr(n ast.Node, goLit string) string {
 	s, err := strconv.Unquote(goLit)
 	if err != nil {
-		ggFail(n, "string literal %s", goLit)
+		gegFail(n, "string literal %s", goLit)
 	}
 	var b strings.Builder
 	for _, r := range s {
@@ -154,7 +154,7 @@ func ggStr(n ast.Node, goLit string) string {
 		case r == '\\':
 			b.WriteString(`\\`)
 		case r < 0x20 || r > 0x7e:
-			ggFail(n, "string literal %s holds a character the translator does not spell", goLit)
+			gegFail(n, "string literal %s holds a character the translator does not spell", goLit)
 		default:
 			b.WriteRune(r)
 		}
@@ -200,29 +200,29 @@ func ggTypeKind(e ast.Expr, pos string) string {
 			return "gerr"
 		}
 	}
-	ggFail(e, "type `%s` (as %s) is outside the translated fragment", src(e), pos)
+	gegFail(e, "type `%s` (as %s) is outside the translated fragment", src(e), pos)
 	return ""
 }
 
 func isNil(e ast.Expr) bool { id, ok := e.(*ast.Ident); return ok && id.Name == "nil" }
 
-func (t *gg) pure(e ast.Expr) string {
+func (t *geg) pure(e ast.Expr) string {
 	s, _ := t.expr(e)
 	if strings.Contains(s, "←") {
-		ggFail(e, "`%s` can panic or has an effect where only a plain value is translated", src(e))
+		gegFail(e, "`%s` can panic or has an effect where only a plain value is translated", src(e))
 	}
 	return s
 }
 
-func (t *gg) exprK(e ast.Expr, want string) string {
+func (t *geg) exprK(e ast.Expr, want string) string {
 	s, k := t.expr(e)
 	if k != want {
-		ggFail(e, "`%s` is a %s where a %s is expected", src(e), k, want)
+		gegFail(e, "`%s` is a %s where a %s is expected", src(e), k, want)
 	}
 	return s
 }
 
-func (t *gg) composite(x *ast.CompositeLit) (string, string) {
+func (t *geg) composite(x *ast.CompositeLit) (string, string) {
 	tn := src(x.Type)
 	var kind string
 	switch tn {
@@ -231,21 +231,21 @@ func (t *gg) composite(x *ast.CompositeLit) (string, string) {
 	case "ErrorDesc":
 		kind = "desc"
 	default:
-		ggFail(x, "composite literal of `%s`", tn)
+		gegFail(x, "composite literal of `%s`", tn)
 	}
 	st := t.structs[kind]
 	vals := map[string]string{}
 	for _, el := range x.Elts {
 		kv, ok := el.(*ast.KeyValueExpr)
 		if !ok {
-			ggFail(x, "unkeyed composite literal")
+			gegFail(x, "unkeyed composite literal")
 		}
 		k, ok := kv.Key.(*ast.Ident)
 		if !ok {
-			ggFail(x, "composite literal key `%s`", src(kv.Key))
+			gegFail(x, "composite literal key `%s`", src(kv.Key))
 		}
 		if _, dup := vals[k.Name]; dup {
-			ggFail(x, "field %s twice", k.Name)
+			gegFail(x, "field %s twice", k.Name)
 		}
 		fk := ""
 		for _, f := range st.fields {
@@ -254,7 +254,7 @@ func (t *gg) composite(x *ast.CompositeLit) (string, string) {
 			}
 		}
 		if fk == "" {
-			ggFail(x, "`%s` has no field %s", tn, k.Name)
+			gegFail(x, "`%s` has no field %s", tn, k.Name)
 		}
 		vals[k.Name] = t.exprK(kv.Value, fk)
 	}
@@ -262,14 +262,14 @@ func (t *gg) composite(x *ast.CompositeLit) (string, string) {
 	for _, f := range st.fields {
 		v, ok := vals[f.name]
 		if !ok {
-			ggFail(x, "composite literal leaves field %s to its zero value (outside the fragment)", f.name)
+			gegFail(x, "composite literal leaves field %s to its zero value (outside the fragment)", f.name)
 		}
 		parts = append(parts, f.name+" := "+v)
 	}
 	return "({ " + strings.Join(parts, ", ") + " } : " + st.lean + ")", kind
 }
 
-func (t *gg) expr(e ast.Expr) (string, string) {
+func (t *geg) expr(e ast.Expr) (string, string) {
 	switch x := e.(type) {
 	case *ast.ParenExpr:
 		return t.expr(x.X)
@@ -278,9 +278,9 @@ func (t *gg) expr(e ast.Expr) (string, string) {
 			return x.Name, "bool"
 		}
 		if k := t.lookup(x.Name); k != "" {
-			return ggName(x.Name), k
+			return gegName(x.Name), k
 		}
-		ggFail(e, "identifier `%s` is not a parameter or local of the translated function", x.Name)
+		gegFail(e, "identifier `%s` is not a parameter or local of the translated function", x.Name)
 	case *ast.BasicLit:
 		switch x.Kind {
 		case token.STRING:
@@ -319,7 +319,7 @@ func (t *gg) expr(e ast.Expr) (string, string) {
 						r = "(Option.isNone " + s + ")"
 					}
 				default:
-					ggFail(e, "comparison of a %s with nil", k)
+					gegFail(e, "comparison of a %s with nil", k)
 				}
 				return r, "bool"
 			}
@@ -327,7 +327,7 @@ func (t *gg) expr(e ast.Expr) (string, string) {
 		a, ka := t.expr(x.X)
 		b, kb := t.expr(x.Y)
 		if ka != kb {
-			ggFail(e, "`%s`: operands of kinds %s and %s", src(e), ka, kb)
+			gegFail(e, "`%s`: operands of kinds %s and %s", src(e), ka, kb)
 		}
 		switch x.Op {
 		case token.EQL:
@@ -367,7 +367,7 @@ func (t *gg) expr(e ast.Expr) (string, string) {
 					return s + "." + f.name, f.kind
 				}
 			}
-			ggFail(e, "`%s`: %s has no translated field %s", src(e), st.lean, x.Sel.Name)
+			gegFail(e, "`%s`: %s has no translated field %s", src(e), st.lean, x.Sel.Name)
 		}
 	case *ast.IndexExpr:
 		s, k := t.expr(x.X)
@@ -388,24 +388,24 @@ func (t *gg) expr(e ast.Expr) (string, string) {
 				t.bind(p, "field")
 				s := t.pure(r.Results[0])
 				if _, k := t.expr(r.Results[0]); k != "bool" {
-					ggFail(e, "closure result")
+					gegFail(e, "closure result")
 				}
 				t.pop()
-				return "(fun " + ggName(p) + " => " + s + ")", "fn:field"
+				return "(fun " + gegName(p) + " => " + s + ")", "fn:field"
 			}
 		}
 	case *ast.CallExpr:
 		return t.call(x)
 	}
-	ggFail(e, "expression `%s` is outside the translated fragment", src(e))
+	gegFail(e, "expression `%s` is outside the translated fragment", src(e))
 	return "", ""
 }
 
-func (t *gg) call(x *ast.CallExpr) (string, string) {
+func (t *geg) call(x *ast.CallExpr) (string, string) {
 	fn := src(x.Fun)
 	argN := func(n int) {
 		if len(x.Args) != n || x.Ellipsis.IsValid() {
-			ggFail(x, "`%s`: argument list", src(x))
+			gegFail(x, "`%s`: argument list", src(x))
 		}
 	}
 	switch fn {
@@ -419,15 +419,15 @@ func (t *gg) call(x *ast.CallExpr) (string, string) {
 			t.usesEnv = true
 			return "(env.stackLen " + s + ")", "int"
 		}
-		ggFail(x, "len of a %s", k)
+		gegFail(x, "len of a %s", k)
 	case "make":
 		// make(X, 0, n): an empty slice; the capacity is evaluated (it must be a plain int) and dropped
 		argN(3)
 		if lit, ok := x.Args[1].(*ast.BasicLit); !ok || lit.Value != "0" {
-			ggFail(x, "make with a length other than the literal 0")
+			gegFail(x, "make with a length other than the literal 0")
 		}
 		if _, k := t.expr(x.Args[2]); k != "int" {
-			ggFail(x, "make: capacity")
+			gegFail(x, "make: capacity")
 		}
 		t.pure(x.Args[2])
 		switch src(x.Args[0]) {
@@ -436,7 +436,7 @@ func (t *gg) call(x *ast.CallExpr) (string, string) {
 		case "[]T":
 			return "([] : List α)", "listT"
 		}
-		ggFail(x, "make of `%s`", src(x.Args[0]))
+		gegFail(x, "make of `%s`", src(x.Args[0]))
 	case "append":
 		argN(2)
 		s, k := t.expr(x.Args[0])
@@ -447,11 +447,11 @@ func (t *gg) call(x *ast.CallExpr) (string, string) {
 		case k == "fields" && kv == "optfield":
 			id, ok := x.Args[1].(*ast.Ident)
 			if !ok || t.nonNil[id.Name] == 0 {
-				ggFail(x, "append of a *Field that may be nil (only translated inside `if %s != nil`)", src(x.Args[1]))
+				gegFail(x, "append of a *Field that may be nil (only translated inside `if %s != nil`)", src(x.Args[1]))
 			}
 			return "(" + s + " ++ (Option.toList " + v + "))", k
 		}
-		ggFail(x, "append of a %s to a %s", kv, k)
+		gegFail(x, "append of a %s to a %s", kv, k)
 	case "Fields":
 		argN(1)
 		return t.exprK(x.Args[0], "fields"), "fields"
@@ -460,7 +460,7 @@ func (t *gg) call(x *ast.CallExpr) (string, string) {
 		return "(List.contains " + t.exprK(x.Args[0], "strs") + " " + t.exprK(x.Args[1], "str") + ")", "bool"
 	case "set.Make":
 		if x.Ellipsis.IsValid() {
-			ggFail(x, "set.Make(xs...)")
+			gegFail(x, "set.Make(xs...)")
 		}
 		var as []string
 		for _, a := range x.Args {
@@ -469,11 +469,11 @@ func (t *gg) call(x *ast.CallExpr) (string, string) {
 		return "(← Generated.GoSet.Make [" + strings.Join(as, ", ") + "])", "sset"
 	case "fmt.Errorf":
 		if len(x.Args) < 1 {
-			ggFail(x, "fmt.Errorf()")
+			gegFail(x, "fmt.Errorf()")
 		}
 		lit, ok := x.Args[0].(*ast.BasicLit)
 		if !ok || lit.Kind != token.STRING {
-			ggFail(x, "fmt.Errorf with a format that is not a literal")
+			gegFail(x, "fmt.Errorf with a format that is not a literal")
 		}
 		return "(some (GoError.mk " + ggStr(lit, lit.Value) + "))", "erro"
 	case "errors.New":
@@ -483,7 +483,7 @@ func (t *gg) call(x *ast.CallExpr) (string, string) {
 	if id, ok := x.Fun.(*ast.Ident); ok {
 		if k := t.lookup(id.Name); k == "fnT" {
 			argN(1)
-			return "(" + ggName(id.Name) + " " + t.exprK(x.Args[0], "T") + ")", "bool"
+			return "(" + gegName(id.Name) + " " + t.exprK(x.Args[0], "T") + ")", "bool"
 		}
 		if f := t.fns[id.Name]; f != nil && len(f.results) == 1 {
 			rk := f.results[0]
@@ -499,7 +499,7 @@ func (t *gg) call(x *ast.CallExpr) (string, string) {
 	}
 	if sel, ok := x.Fun.(*ast.SelectorExpr); ok {
 		if _, isPkg := sel.X.(*ast.Ident); isPkg && t.lookup(sel.X.(*ast.Ident).Name) == "" {
-			ggFail(x, "call of `%s` is outside the translated fragment", fn)
+			gegFail(x, "call of `%s` is outside the translated fragment", fn)
 		}
 		s, k := t.expr(sel.X)
 		m := sel.Sel.Name
@@ -525,19 +525,19 @@ func (t *gg) call(x *ast.CallExpr) (string, string) {
 			return "(env.stackString " + s + ")", "str"
 		case k == "sset" && m == "Has":
 			if len(x.Args) != 1 || !x.Ellipsis.IsValid() {
-				ggFail(x, "Set.Has is translated for `Has(xs...)` only")
+				gegFail(x, "Set.Has is translated for `Has(xs...)` only")
 			}
 			return "(← Generated.GoSet.Set.Has " + s + " " + t.exprK(x.Args[0], "strs") + ")", "bool"
 		}
 	}
-	ggFail(x, "call `%s` is outside the translated fragment", src(x))
+	gegFail(x, "call `%s` is outside the translated fragment", src(x))
 	return "", ""
 }
 
 // callFn: a call of a translated function (its arguments; a closure for a `func(T) bool` parameter)
-func (t *gg) callFn(x *ast.CallExpr, f *ggFn) string {
+func (t *geg) callFn(x *ast.CallExpr, f *ggFn) string {
 	if len(x.Args) != len(f.params) || x.Ellipsis.IsValid() {
-		ggFail(x, "`%s`: argument list", src(x))
+		gegFail(x, "`%s`: argument list", src(x))
 	}
 	s := f.lean
 	if f.envArg {
@@ -549,7 +549,7 @@ func (t *gg) callFn(x *ast.CallExpr, f *ggFn) string {
 		want := f.params[i]
 		ok := k == want || (want == "listT" && k == "fields") || (want == "fnT" && k == "fn:field")
 		if !ok {
-			ggFail(a, "`%s` is a %s where %s takes a %s", src(a), k, f.lean, want)
+			gegFail(a, "`%s` is a %s where %s takes a %s", src(a), k, f.lean, want)
 		}
 		s += " " + v
 	}
@@ -557,10 +557,10 @@ func (t *gg) callFn(x *ast.CallExpr, f *ggFn) string {
 }
 
 // twoResults: the right-hand side of `a, b := f(…)`
-func (t *gg) twoResults(x ast.Expr) (string, [2]string, bool) {
+func (t *geg) twoResults(x ast.Expr) (string, [2]string, bool) {
 	c, ok := x.(*ast.CallExpr)
 	if !ok {
-		ggFail(x, "`%s` does not yield two values in the translated fragment", src(x))
+		gegFail(x, "`%s` does not yield two values in the translated fragment", src(x))
 	}
 	if src(c.Fun) == "structtag.Parse" && len(c.Args) == 1 {
 		t.usesEnv = true
@@ -569,7 +569,7 @@ func (t *gg) twoResults(x ast.Expr) (string, [2]string, bool) {
 	if sel, ok := c.Fun.(*ast.SelectorExpr); ok && sel.Sel.Name == "Get" && len(c.Args) == 1 {
 		if id, ok := sel.X.(*ast.Ident); ok && t.lookup(id.Name) == "tags" {
 			t.usesEnv = true
-			return "env.tagsGet " + ggName(id.Name) + " " + t.exprK(c.Args[0], "str"), [2]string{"tag", "errb"}, false
+			return "env.tagsGet " + gegName(id.Name) + " " + t.exprK(c.Args[0], "str"), [2]string{"tag", "errb"}, false
 		}
 	}
 	if id, ok := c.Fun.(*ast.Ident); ok {
@@ -577,11 +577,11 @@ func (t *gg) twoResults(x ast.Expr) (string, [2]string, bool) {
 			return t.callFn(c, f), [2]string{f.results[0], f.results[1]}, true
 		}
 	}
-	ggFail(x, "`%s` does not yield two values in the translated fragment", src(x))
+	gegFail(x, "`%s` does not yield two values in the translated fragment", src(x))
 	return "", [2]string{}, false
 }
 
-func (t *gg) assignedIn(b ast.Node) map[string]bool {
+func (t *geg) assignedIn(b ast.Node) map[string]bool {
 	r := map[string]bool{}
 	ast.Inspect(b, func(n ast.Node) bool {
 		switch x := n.(type) {
@@ -617,7 +617,7 @@ func (t *gg) assignedIn(b ast.Node) map[string]bool {
 	return r
 }
 
-func (t *gg) define(ind int, id *ast.Ident, k, rhs string, monadic bool) {
+func (t *geg) define(ind int, id *ast.Ident, k, rhs string, monadic bool) {
 	if id.Name == "_" {
 		return
 	}
@@ -627,16 +627,16 @@ func (t *gg) define(ind int, id *ast.Ident, k, rhs string, monadic bool) {
 	}
 	if t.inScope(id.Name) { // `a, b := …` with b already declared in this scope: an assignment
 		if t.lookup(id.Name) != k {
-			ggFail(id, "`%s` changes kind from %s to %s", id.Name, t.lookup(id.Name), k)
+			gegFail(id, "`%s` changes kind from %s to %s", id.Name, t.lookup(id.Name), k)
 		}
-		t.line(ind, ggName(id.Name)+arrow+rhs)
+		t.line(ind, gegName(id.Name)+arrow+rhs)
 		return
 	}
 	t.bind(id.Name, k)
-	t.line(ind, "let mut "+ggName(id.Name)+" : "+ggLeanType(k)+arrow+rhs)
+	t.line(ind, "let mut "+gegName(id.Name)+" : "+ggLeanType(k)+arrow+rhs)
 }
 
-func (t *gg) stmt(ind int, s ast.Stmt) {
+func (t *geg) stmt(ind int, s ast.Stmt) {
 	switch x := s.(type) {
 	case *ast.DeclStmt:
 		gd, ok := x.Decl.(*ast.GenDecl)
@@ -645,7 +645,7 @@ func (t *gg) stmt(ind int, s ast.Stmt) {
 			if len(vs.Names) == 1 && len(vs.Values) == 1 && vs.Type == nil {
 				if lit, ok := vs.Values[0].(*ast.BasicLit); ok && lit.Kind == token.STRING {
 					t.bind(vs.Names[0].Name, "str")
-					t.line(ind, "let "+ggName(vs.Names[0].Name)+" : Go.Str := "+ggStr(lit, lit.Value))
+					t.line(ind, "let "+gegName(vs.Names[0].Name)+" : Go.Str := "+ggStr(lit, lit.Value))
 					return
 				}
 			}
@@ -696,7 +696,7 @@ func (t *gg) stmt(ind int, s ast.Stmt) {
 				if k == "" {
 					break
 				}
-				t.line(ind, ggName(l.Name)+" := "+t.exprK(x.Rhs[0], k))
+				t.line(ind, gegName(l.Name)+" := "+t.exprK(x.Rhs[0], k))
 				return
 			case *ast.SelectorExpr:
 				// v.F = e on a local record
@@ -707,18 +707,18 @@ func (t *gg) stmt(ind int, s ast.Stmt) {
 				k := t.lookup(id.Name)
 				st := t.structs[k]
 				if st == nil || k != "tag" {
-					ggFail(s, "`%s`: a write through `%s` (only the local *structtag.Tag is updated in place)", src(s), id.Name)
+					gegFail(s, "`%s`: a write through `%s` (only the local *structtag.Tag is updated in place)", src(s), id.Name)
 				}
 				for _, f := range st.fields {
 					if f.name == l.Sel.Name {
-						t.line(ind, ggName(id.Name)+" := { "+ggName(id.Name)+" with "+f.name+" := "+t.exprK(x.Rhs[0], f.kind)+" }")
+						t.line(ind, gegName(id.Name)+" := { "+gegName(id.Name)+" with "+f.name+" := "+t.exprK(x.Rhs[0], f.kind)+" }")
 						return
 					}
 				}
 			}
 		case token.ADD_ASSIGN:
 			if id, ok := x.Lhs[0].(*ast.Ident); ok && t.lookup(id.Name) == "str" {
-				t.line(ind, ggName(id.Name)+" := ("+ggName(id.Name)+" ++ "+t.exprK(x.Rhs[0], "str")+")")
+				t.line(ind, gegName(id.Name)+" := ("+gegName(id.Name)+" ++ "+t.exprK(x.Rhs[0], "str")+")")
 				return
 			}
 		}
@@ -732,7 +732,7 @@ func (t *gg) stmt(ind int, s ast.Stmt) {
 			id, ok := a.(*ast.Ident)
 			if ok && t.lookup(id.Name) == "fields" && t.fns["Fields.Less"] != nil {
 				t.usesEnv = true
-				t.line(ind, ggName(id.Name)+" := env.sortSort Fields.Less "+ggName(id.Name))
+				t.line(ind, gegName(id.Name)+" := env.sortSort Fields.Less "+gegName(id.Name))
 				return
 			}
 		}
@@ -763,17 +763,17 @@ func (t *gg) stmt(ind int, s ast.Stmt) {
 				return true
 			})
 			if bad {
-				ggFail(s, "the loop body assigns the loop variable or its bound")
+				gegFail(s, "the loop body assigns the loop variable or its bound")
 			}
 			ast.Inspect(x.Body, func(m ast.Node) bool {
 				if b, ok := m.(*ast.BranchStmt); ok {
-					ggFail(b, "`%s` in a loop", b.Tok)
+					gegFail(b, "`%s` in a loop", b.Tok)
 				}
 				return true
 			})
 			t.push()
 			t.bind(i, "int")
-			t.line(ind, "for "+ggName(i)+" in List.range' 0 "+n+" do")
+			t.line(ind, "for "+gegName(i)+" in List.range' 0 "+n+" do")
 			t.block(ind+1, x.Body)
 			t.pop()
 			return
@@ -786,17 +786,17 @@ func (t *gg) stmt(ind int, s ast.Stmt) {
 			ek := map[string]string{"listT": "T", "fields": "field"}[k]
 			if ek != "" {
 				if id, ok := x.X.(*ast.Ident); ok && t.assignedIn(x.Body)[id.Name] {
-					ggFail(s, "the loop body assigns the slice it ranges over")
+					gegFail(s, "the loop body assigns the slice it ranges over")
 				}
 				ast.Inspect(x.Body, func(m ast.Node) bool {
 					if b, ok := m.(*ast.BranchStmt); ok {
-						ggFail(b, "`%s` in a loop", b.Tok)
+						gegFail(b, "`%s` in a loop", b.Tok)
 					}
 					return true
 				})
 				t.push()
 				t.bind(val.Name, ek)
-				t.line(ind, "for "+ggName(val.Name)+" in "+over+" do")
+				t.line(ind, "for "+gegName(val.Name)+" in "+over+" do")
 				t.block(ind+1, x.Body)
 				t.pop()
 				return
@@ -814,7 +814,7 @@ func (t *gg) stmt(ind int, s ast.Stmt) {
 					vs = append(vs, "none")
 					continue
 				}
-				ggFail(s, "nil as a %s", t.rets[i])
+				gegFail(s, "nil as a %s", t.rets[i])
 			}
 			vs = append(vs, t.exprK(r, t.rets[i]))
 		}
@@ -825,10 +825,10 @@ func (t *gg) stmt(ind int, s ast.Stmt) {
 		}
 		return
 	}
-	ggFail(s, "statement `%s` is outside the translated fragment", src(s))
+	gegFail(s, "statement `%s` is outside the translated fragment", src(s))
 }
 
-func (t *gg) block(ind int, b *ast.BlockStmt) {
+func (t *geg) block(ind int, b *ast.BlockStmt) {
 	t.push()
 	if len(b.List) == 0 {
 		t.line(ind, "pure ()")
@@ -839,7 +839,7 @@ func (t *gg) block(ind int, b *ast.BlockStmt) {
 	t.pop()
 }
 
-func (t *gg) ifStmt(ind int, x *ast.IfStmt) {
+func (t *geg) ifStmt(ind int, x *ast.IfStmt) {
 	t.line(ind, "if "+t.exprK(x.Cond, "bool")+" then")
 	// inside `if v != nil { … }` the pointer v is known not to be nil
 	nn := ""
@@ -862,12 +862,12 @@ func (t *gg) ifStmt(ind int, x *ast.IfStmt) {
 		t.block(ind+1, e)
 	case *ast.IfStmt:
 		if e.Init != nil {
-			ggFail(e, "`if` with an init statement")
+			gegFail(e, "`if` with an init statement")
 		}
 		t.line(ind, "else")
 		t.ifStmt(ind+1, e)
 	default:
-		ggFail(x, "else branch")
+		gegFail(x, "else branch")
 	}
 }
 
@@ -928,7 +928,7 @@ func runGerrorGen(repo, out string) {
 	gsort := ggParse(repo, "gerror/gen/error_types.gsort.go")
 	gerr := ggParse(repo, "gerror/gerror.go")
 
-	t := &gg{structs: map[string]*ggStruct{}, fns: map[string]*ggFn{}, nonNil: map[string]int{}}
+	t := &geg{structs: map[string]*ggStruct{}, fns: map[string]*ggFn{}, nonNil: map[string]int{}}
 	t.structs["tag"] = &ggStruct{"Tag", []cbField{{"Name", "str"}, {"Options", "strs"}}}
 	t.structs["var"] = &ggStruct{"Var", nil} // queried through Name() / Embedded() only
 
@@ -947,7 +947,7 @@ func runGerrorGen(repo, out string) {
 		for _, f := range st.Fields.List {
 			k := ggTypeKind(f.Type, "struct field")
 			if len(f.Names) == 0 {
-				ggFail(f, "embedded field in %s", sd.tn)
+				gegFail(f, "embedded field in %s", sd.tn)
 			}
 			for _, n := range f.Names {
 				gs.fields = append(gs.fields, cbField{n.Name, k})
@@ -1056,7 +1056,7 @@ func runGerrorGen(repo, out string) {
 					fail("gerrorgen: %s: receiver type `%s`, the translation assumes `%s`", sp.key, src(r.Type), want)
 				}
 				t.bind(r.Names[0].Name, k)
-				sig += " (" + ggName(r.Names[0].Name) + " : " + ggLeanType(k) + ")"
+				sig += " (" + gegName(r.Names[0].Name) + " : " + ggLeanType(k) + ")"
 				fn.params = append(fn.params, k)
 			}
 		} else if sp.recvK != "" {
@@ -1073,7 +1073,7 @@ func runGerrorGen(repo, out string) {
 				}
 				k := ggTypeKind(p.Type, "parameter")
 				t.bind(n.Name, k)
-				sig += " (" + ggName(n.Name) + " : " + ggLeanType(k) + ")"
+				sig += " (" + gegName(n.Name) + " : " + ggLeanType(k) + ")"
 				fn.params = append(fn.params, k)
 			}
 		}
